@@ -184,6 +184,8 @@ class Analyzer:
         self.contracts = contracts or Contracts()
         self.summaries = {}
         self.active = set()
+        self.mono = {}
+        self.inlined = set()     # helpers (not in the reference tree) analysed in the context of a call site
         self.field_rng = {}      # (adt, field name) -> interval inferred from all write sites (private fields only)
         self.field_writes = {}   # collected during a round
         self.private = {}
@@ -298,6 +300,56 @@ class Analyzer:
         self.summaries[f.id] = r
         return r
 
+    def mono_summary(self, f, targs):
+        """(return interval, sub-intervals of an aggregate result) of a generic crate-local function analysed
+        with concrete type arguments (associated constants of the arguments are then known)."""
+        key = (f.id, tuple(sorted((k, ty_str(v)) for k, v in targs.items())))
+        if key in self.mono:
+            return self.mono[key]
+        if f.id in self.active:
+            return (None, {})
+        self.active.add(f.id)
+        try:
+            run = FnRun(self, f, 1, targs)
+            ret, _ = run.run()
+            r = (ret, dict(run.ret_sub))
+        except RecursionError:
+            r = (None, {})
+        self.active.discard(f.id)
+        self.mono[key] = r
+        return r
+
+    def assoc_const(self, c, targs):
+        """value of an unevaluated associated constant `<T as Trait>::NAME` when T is (or is instantiated to) a
+        concrete type with an impl in the program"""
+        args = c.get("args") or []
+        tr = c.get("trait")
+        if not tr or not args:
+            return None
+        a0 = args[0]
+        if isinstance(a0, dict) and "param" in a0:
+            a0 = targs.get(a0["param"])
+        if a0 is None or has_param(a0):
+            return None
+        name = str(c.get("uneval", "")).split("::")[-1]
+        want = ty_str(a0)
+        for i in self.prog.impls.values():
+            if i.get("trait") == tr and ty_str(i["self_ty"]) == want:
+                v = (i.get("consts") or {}).get(name)
+                if v is not None and isinstance(v.get("v"), (int, bool)):
+                    return int(v["v"])
+        return None
+
+
+def has_param(t):
+    if isinstance(t, dict):
+        if "param" in t or "cparam" in t:
+            return True
+        return any(has_param(v) for v in t.values())
+    if isinstance(t, list):
+        return any(has_param(v) for v in t)
+    return False
+
 
 def pe(e):
     if e == "*":
@@ -314,10 +366,14 @@ def pe(e):
 
 
 class FnRun:
-    def __init__(self, an, fn):
+    def __init__(self, an, fn, depth=0, targs=None):
         self.an = an
         self.prog = an.prog
         self.fn = fn
+        self.depth = depth
+        self.targs = targs or {}
+        self.ret_sub = {}
+        self.cond_true = self.cond_false = None
         self.body = fn.body
         self.cfg = CFG(fn.body)
         self.findings = []
@@ -365,6 +421,8 @@ class FnRun:
             del st[k]
         for k in [k for k in st if k[0] == "rel" and (k[1][0] == local)]:
             del st[k]
+        for k in [k for k in st if k[0] == "cond" and (k[1][0] == local or any(kk[0] == local for m in st[k] if m for kk in m))]:
+            del st[k]
         if not proj:
             st.pop(("ptr", local), None)
 
@@ -388,6 +446,10 @@ class FnRun:
                 return (v, v)
             if isinstance(v, dict) and "char" in v:
                 return (v["char"], v["char"])
+            if "uneval" in o["const"]:
+                cv = self.an.assoc_const(o["const"], self.targs)
+                if cv is not None:
+                    return (cv, cv)
             ty = o["const"].get("ty")
             if is_int(ty):
                 # unevaluated constant (generic): const generic parameters of display scale
@@ -400,6 +462,10 @@ class FnRun:
 
     def const_contract(self, c, ty):
         name = str(c.get("uneval") or c.get("c") or "")
+        if "uneval" in c:
+            v = self.an.assoc_const(c, self.targs)
+            if v is not None:
+                return (v, v)
         if "BITS_PER_PIXEL" in name:
             return (1, 32)
         if isinstance(c.get("c"), dict) and c["c"].get("cparam") in ("WIDTH", "HEIGHT"):
@@ -437,12 +503,16 @@ class FnRun:
                     st[("ptr", ndl)] = ptr
                 return
             v = self.operand(st, src)
+            sk0 = self.operand_key(st, src) if spl is not None else None
+            cnd = st.get(("cond", sk0)) if sk0 is not None else None
             self.write(st, dl, dp, v)
             if spl is not None and v is not None:
                 sk = self.operand_key(st, src)
                 ndl, ndp = self.norm(st, dl, dp)
                 if sk != (ndl, tuple(ndp)):
                     st[("alias", (ndl, tuple(ndp)))] = sk
+                    if cnd is not None:
+                        st[("cond", (ndl, tuple(ndp)))] = cnd
             return
         if k == "ref" or k == "rawptr":
             tl, tp = self.norm(st, rv["place"]["l"], [pe(e) for e in rv["place"]["p"]])
@@ -511,6 +581,9 @@ class FnRun:
                 if sk is not None and ("rel", sk) in st:
                     op, x, y = st[("rel", sk)]
                     st[("rel", (ndl, tuple(ndp)))] = ({"Lt": "Ge", "Le": "Gt", "Gt": "Le", "Ge": "Lt", "Eq": "Ne", "Ne": "Eq"}[op], x, y)
+                if sk is not None and ("cond", sk) in st:
+                    ct, cf = st[("cond", sk)]
+                    st[("cond", (ndl, tuple(ndp)))] = (cf, ct)
                 return
             self.kill_write_default(st, dl, dp)
             return
@@ -593,9 +666,22 @@ class FnRun:
             path = r.get("path", "") or ""
             name = f.get("name", "")
             ret, extra = self.model(path, name, args, dty, t, st)
+            cond = None
             if ret is None and not extra:
                 cands = [g for g in self.prog.by_path.get(path, []) if g.body and g.kind in ("fn", "assoc_fn")]
-                if len(cands) == 1 and is_int(dty):
+                if len(cands) == 1 and self.depth < 4 and cands[0].id not in self.an.active:
+                    g = cands[0]
+                    targs = self.callee_targs(g, r)
+                    if self.prog.is_new(g):
+                        ret, extra, cond = self.inline(st, t, args, g, bi, targs, True)
+                    elif g.body["locals"][0]["ty"] == "bool" and len(g.body["blocks"]) <= 60:
+                        ret, extra, cond = self.inline(st, t, args, g, bi, targs, False)
+                    elif targs:
+                        ret, sub = self.an.mono_summary(g, targs)
+                        extra = {k: v for k, v in sub.items() if k}
+                    elif is_int(dty):
+                        ret, _ = self.an.summary(g)
+                elif len(cands) == 1 and is_int(dty):
                     sret, _ = self.an.summary(cands[0])
                     ret = sret
         ndl, ndp = self.norm(st, dl, dp)
@@ -608,6 +694,112 @@ class FnRun:
             st[(ndl, tuple(ndp))] = clamp(ret, rng)
         for sub, v in extra.items():
             st[(ndl, tuple(ndp) + sub)] = v
+        if "indirect" not in f and cond is not None and dty == "bool":
+            st[("cond", (ndl, tuple(ndp)))] = cond
+
+    def callee_targs(self, g, r):
+        """{generic parameter of g: concrete type} from the resolved generic arguments of a call"""
+        out = {}
+        gargs = r.get("args") or []
+        for gp in g.generics:
+            if gp.get("kind") != "type":
+                continue
+            i = gp.get("idx")
+            if i is None or i >= len(gargs):
+                continue
+            a = gargs[i]
+            if isinstance(a, dict) and "param" in a and len(a) <= 2:
+                a = self.targs.get(a["param"])
+            if a is None or a == "'_" or has_param(a):
+                continue
+            out[gp["name"]] = a
+        return out
+
+    def inline(self, st, t, args, callee, bi, targs, report):
+        """Context-sensitive analysis of a callee: it is analysed with the caller's argument intervals.
+        report=True (helper that does not exist in the reference tree): its unproved asserts are attributed to this
+        call.  For a bool result the intervals implied for the arguments by a true / false result are returned."""
+        entry = {}
+        back = {}   # callee param local -> (caller local, caller proj prefix)
+        for i, a in enumerate(t["args"]):
+            loc = i + 1
+            pl = a.get("move") or a.get("copy")
+            if pl is not None:
+                sl, sp = self.norm(st, pl["l"], [pe(e) for e in pl["p"]])
+                back[loc] = (sl, tuple(sp))
+            if args[i] is not None:
+                entry[(loc, ())] = args[i]
+                continue
+            if pl is None:
+                continue
+            sp = tuple(sp)
+            for kk, vv in st.items():
+                if isinstance(kk[0], int) and kk[0] == sl and kk[1][:len(sp)] == sp:
+                    entry[(loc, kk[1][len(sp):])] = vv
+            if not sp and ("ptr", sl) in st:
+                tl, tp = st[("ptr", sl)]
+                tp = tuple(tp)
+                back[loc] = ("ptr", tl, tp)
+                for kk, vv in st.items():
+                    if isinstance(kk[0], int) and kk[0] == tl and kk[1][:len(tp)] == tp:
+                        entry[(loc, ("*",) + kk[1][len(tp):])] = vv
+        if report:
+            self.an.inlined.add(callee.id)
+        self.an.active.add(callee.id)
+        try:
+            sub = FnRun(self.an, callee, self.depth + 1, targs)
+            ret, finds = sub.run(entry)
+        except RecursionError:
+            ret, finds = None, []
+        finally:
+            self.an.active.discard(callee.id)
+        if report:
+            for _, kind, op, det, sp in finds:
+                self.finding(bi, kind, op, "%s (in helper %s)" % (det, callee.name), t.get("sp", "") or sp)
+        extra = {k: v for k, v in sub.ret_sub.items() if k}
+        cond = None
+        if sub.cond_true is not None or sub.cond_false is not None:
+            written = sub.written_params()
+            def tr(m):
+                if m is None:
+                    return None      # this outcome is impossible
+                out = {}
+                for (loc, proj), v in m.items():
+                    if loc in written or loc not in back:
+                        continue
+                    b = back[loc]
+                    if b[0] == "ptr":
+                        if proj[:1] != ("*",):
+                            continue
+                        out[(b[1], b[2] + proj[1:])] = v
+                    else:
+                        out[(b[0], b[1] + proj)] = v
+                return out
+            cond = (tr(sub.cond_true), tr(sub.cond_false))
+        return ret, extra, cond
+
+    def written_params(self):
+        """parameter locals that the body may modify (assigned, call destination, mutably borrowed)"""
+        w = set()
+        argc = self.body["argc"]
+        for b in self.body["blocks"]:
+            for s in b["s"]:
+                if s["k"] == "assign":
+                    if 1 <= s["place"]["l"] <= argc and "*" not in [pe(e) for e in s["place"]["p"]]:
+                        w.add(s["place"]["l"])
+                    rv = s["rv"]
+                    if rv["k"] in ("ref", "rawptr") and (rv.get("mut") or rv["k"] == "rawptr") and 1 <= rv["place"]["l"] <= argc:
+                        w.add(rv["place"]["l"])
+                    if s["k"] == "assign" and 1 <= s["place"]["l"] <= argc and "*" in [pe(e) for e in s["place"]["p"]]:
+                        w.add(s["place"]["l"])
+            t = b["t"]
+            if t and t["k"] == "call" and 1 <= t["dest"]["l"] <= argc:
+                w.add(t["dest"]["l"])
+        for l in range(1, argc + 1):
+            ty = self.body["locals"][l]["ty"]
+            if isinstance(ty, dict) and "ref" in ty and ty.get("mut"):
+                w.add(l)
+        return w
 
     def model(self, path, name, args, dty, t, st):
         a = args
@@ -724,6 +916,9 @@ class FnRun:
                     if ("rel", dk) in st and v in (0, 1):
                         if self.refine_by_rel(st2, dk, bool(v)) is False:
                             continue
+                    if ("cond", dk) in st and v in (0, 1):
+                        if self.refine_by_cond(st2, dk, bool(v)) is False:
+                            continue
                     self.propagate_alias(st2, dk)
                 out.append((b, st2))
             # otherwise
@@ -744,6 +939,9 @@ class FnRun:
                     if ("rel", dk) in st and vals == [0]:
                         if self.refine_by_rel(st2, dk, True) is False:
                             feasible = False
+                    if ("cond", dk) in st and vals == [0]:
+                        if self.refine_by_cond(st2, dk, True) is False:
+                            feasible = False
                     self.propagate_alias(st2, dk)
             if feasible:
                 out.append((t["otherwise"], st2))
@@ -758,6 +956,26 @@ class FnRun:
                 m = meet(cur, st[key])
                 if m is not None:
                     st[a] = m
+
+    def refine_by_cond(self, st, key, truth):
+        """apply what a true/false result of an analysed bool callee implies for the argument places"""
+        c = st.get(("cond", key))
+        if c is None:
+            return None
+        m = c[0] if truth else c[1]
+        if m is None:
+            return False
+        for k, v in m.items():
+            cur = st.get(k)
+            if cur is None:
+                cur = self.default(*k)
+            if cur is None:
+                continue
+            mm = meet(cur, v)
+            if mm is None:
+                return False
+            st[k] = mm
+        return True
 
     def refine_by_rel(self, st, key, truth):
         rel = st.get(("rel", key))
@@ -781,13 +999,15 @@ class FnRun:
         return True
 
     # ---- driver ---------------------------------------------------------------------------------------------
-    def run(self):
+    def run(self, entry=None):
         blocks = self.body["blocks"]
         n = len(blocks)
-        instate = {0: {}}
+        instate = {0: dict(entry or {})}
         visits = {}
         work = [0]
         heads = self.cfg.loop_heads()
+        exits = set(self.cfg.exits())
+        edge_in = {}
         steps = 0
         while work and steps < 4000:
             steps += 1
@@ -798,9 +1018,11 @@ class FnRun:
             for s in blk["s"]:
                 if s["k"] == "assign":
                     self.assign(st, s, bi)
-            for tgt, st2 in self.edge_states(st, blk, bi):
+            for ei, (tgt, st2) in enumerate(self.edge_states(st, blk, bi)):
                 if tgt is None:
                     continue
+                if tgt in exits:
+                    edge_in[(bi, tgt, ei)] = st2
                 old = instate.get(tgt)
                 if old is None:
                     instate[tgt] = st2
@@ -814,23 +1036,68 @@ class FnRun:
                         work.append(tgt)
         # return interval
         ret = None
+        ret_unknown = False
+        sub = None
         for e in self.cfg.exits():
             if e in instate:
                 st = dict(instate[e])
                 for s in blocks[e]["s"]:
                     if s["k"] == "assign":
                         self.assign(st, s, e)
+                cur = {k[1]: v for k, v in st.items() if isinstance(k[0], int) and k[0] == 0}
+                sub = cur if sub is None else {k: join(v, cur[k]) for k, v in sub.items() if k in cur}
                 v = st.get((0, ()))
-                ret = v if ret is None or v is None else join(ret, v)
                 if v is None:
-                    ret = None
-                    break
+                    ret_unknown = True
+                else:
+                    ret = v if ret is None else join(ret, v)
+        if ret_unknown:
+            ret = None
+        self.ret_sub = sub or {}
         rty = self.body["locals"][0]["ty"]
+        if rty == "bool":
+            self.partition_exits(edge_in, instate)
         if not is_int(rty):
             ret = None
         if steps >= 4000:
             self.findings.append((-1, "engine", "no-fixpoint", "analysis did not converge", ""))
         return ret, self.findings
+
+    def partition_exits(self, edge_in, instate):
+        """cond_true / cond_false: intervals of parameter-rooted places on the paths returning true / false"""
+        blocks = self.body["blocks"]
+        argc = self.body["argc"]
+        outs = {True: [], False: []}
+        states = list(edge_in.items())
+        for e in self.cfg.exits():
+            if e == 0 and e in instate:
+                states.append(((None, e, 0), instate[e]))
+        for (src, e, _), st0 in states:
+            st = dict(st0)
+            for s in blocks[e]["s"]:
+                if s["k"] == "assign":
+                    self.assign(st, s, e)
+            v = st.get((0, ()))
+            for truth in (True, False):
+                if v is not None and not (v[0] <= int(truth) <= v[1]):
+                    continue
+                st2 = dict(st)
+                if v is None or v[0] != v[1]:
+                    if self.refine_by_rel(st2, (0, ()), truth) is False:
+                        continue
+                    if self.refine_by_cond(st2, (0, ()), truth) is False:
+                        continue
+                outs[truth].append({k: x for k, x in st2.items() if isinstance(k[0], int) and 1 <= k[0] <= argc})
+        res = {}
+        for truth, sts in outs.items():
+            if not sts:
+                res[truth] = None
+                continue
+            m = sts[0]
+            for o in sts[1:]:
+                m = {k: join(x, o[k]) for k, x in m.items() if k in o}
+            res[truth] = m
+        self.cond_true, self.cond_false = res[True], res[False]
 
     def join_states(self, a, b, widen):
         out = {}
